@@ -117,10 +117,11 @@ func (e *Enc) runHooks(when string, ci ssa.CallInstruction, args []Term, results
 		}
 		return se
 	}
-	for _, h := range e.fc.Hooks {
+	for hi, h := range e.fc.Hooks {
 		if h.When != when || !matchCallee(name, h.Callee) || (h.Ordinal >= 0 && h.Ordinal != ord) {
 			continue
 		}
+		e.hookHit[fmt.Sprintf("ghost#%d", hi)] = true
 		for _, st := range h.Stmts {
 			se := mkEnv()
 			switch st.Kind {
@@ -161,10 +162,11 @@ func (e *Enc) runHooks(when string, ci ssa.CallInstruction, args []Term, results
 			}
 		}
 	}
-	for _, a := range e.fc.Asserts {
+	for ai, a := range e.fc.Asserts {
 		if a.When != when || !matchCallee(name, a.Callee) || (a.Ordinal >= 0 && a.Ordinal != ord) {
 			continue
 		}
+		e.hookHit[fmt.Sprintf("assert#%d", ai)] = true
 		se := mkEnv()
 		t, err := se.evalBool(a.Clause.Expr)
 		if err != nil {
